@@ -448,7 +448,7 @@ class Vi:
                     raise Unknown('editing keys in a search prompt')
                 txt += k
             pat, _, off = txt.partition(c)
-            if any(ch in pat for ch in '\\.[]*+?(){}|^$/<>&~'):
+            if pat not in ('$', '^') and any(ch in pat for ch in '\\.[]*+?(){}|^$/<>&~'):
                 raise Unknown('search pattern with operators')
             d = 1 if c == '/' else -1
             if pat:
@@ -475,7 +475,7 @@ class Vi:
         M = c13.Model(lines, True)
         cr, co = r, o
         for _ in range(cnt):
-            res = M.search(('lit', self.kwd[0]), cr, co, dirn)
+            res = M.search({'$': ('eol',), '^': ('bol',)}.get(self.kwd[0], ('lit', self.kwd[0])), cr, co, dirn)
             if res is None:
                 return -1, r, o
             cr, co, _ = res
